@@ -208,6 +208,8 @@ def make_bits_gen(prog, fn, holder):
                     out.append(("cmp", bits_key(a0), "<=", b))
                 if ("ev", "libparam", key(fn, c[2][1])) in pre:
                     out.append(("ev", "libparam", a0))
+            elif name == "bn_set_dig":
+                out.append(("cmp", bits_key(a0), "<=", 64))
             elif name in SMALL_ARITH and len(c[2]) >= 2:
                 # small-constant arithmetic on a library parameter stays a library parameter
                 if ("ev", "libparam", key(fn, c[2][1])) in pre:
@@ -217,6 +219,27 @@ def make_bits_gen(prog, fn, holder):
                 if b is not None:
                     out.append(("cmp", bits_key(a0), "<=", b))
                     out.append(("cmp", bits_key(key(fn, c[2][1])), "<=", b))
+        # in-place steps on an element of an array of integers selected by a loop index (bn_abs(m[i], m[i]),
+        # m[i]->dp[0] |= b) keep the bit-length bounds of all elements of that array
+        base = None
+        for c in ir.calls_in(fn, e):
+            if c[1] in ("bn_abs", "bn_neg") and len(c[2]) >= 2 and key(fn, c[2][0]) == key(fn, c[2][1]):
+                k0 = key(fn, c[2][0])
+                if isinstance(k0, tuple) and k0[0] == "x":
+                    base = k0[1]
+        if e[0] == "o=" and e[1] == "|=":
+            l = ir.strip_casts(e[2])
+            if isinstance(l, list) and l[0] == "x" and ir.peel(fn, l[2]) == ["i", 0]:
+                m0 = ir.peel(fn, l[1])
+                if isinstance(m0, list) and m0[0] == "m" and m0[2] == "dp":
+                    k0 = key(fn, m0[1])
+                    base = k0[1] if isinstance(k0, tuple) and k0[0] == "x" else k0
+        if base is not None:
+            for a in pre:
+                if a[0] == "cmp" and isinstance(a[1], tuple) and a[1][0] == "c" and a[1][1] == "bn_bits":
+                    ak = a[1][2][0]
+                    if ak == base or (isinstance(ak, tuple) and ak[0] == "x" and ak[1] == base):
+                        out.append(a)
         # an integer assigned an expression with a constant upper bound keeps that bound
         # after the operands change (n = bn_bits(m); bn_abs(m, k); ...)
         for a in engines.assignment_atoms(fn, e):
